@@ -28,6 +28,7 @@ func init() {
 			"every stem operator starts again at 0 (TN5177: 'in the first pair, y is relative to 0')",
 			"hstemhm/vstemhm are used iff the program contains hintmask/cntrmask",
 			"a program is well formed if generator intent and t2interp (strict, no violation) agree; disagreement between those two is reported as a harness fault",
+			"the deprecated forms of TN5177 appendix C are part of the specification the property names: dotsection (a no-op, generated inside the path section with an empty stack) and endchar with four extra operands 'adx ady bchar achar' (seac form, with or without a leading width). For the seac form the glyph's own path, stems and width (the width detection with 4 / 5 operands) are judged; the composition of the base and accent glyphs is not among the operators the property lists and is not judged. x/image (which composes) is not consulted for these glyphs",
 		},
 	}, runC05)
 }
@@ -211,7 +212,17 @@ func c05checkWellFormed(k *mon.Case, f *c05font, data []byte, tag string) {
 			return fmt.Sprintf("glyph %d (FD %d, %d global / %d local subrs)\n charstring % x\n flat program % x", gid, f.fdsel[gid], len(f.tables.global), len(f.tables.local[f.fdsel[gid]]), f.codes[gid][:min(300, len(f.codes[gid]))], c05bytes(p.toks)[:min(300, len(c05bytes(p.toks)))])
 		}
 		// harness self-check: the generated program must be legal and mean what the generator intended
-		if len(res.Violations) > 0 || res.Fatal || !res.Ended {
+		// the deprecated forms of appendix C are reported by the strict interpreter; they are intended here
+		nViol := len(res.Violations)
+		if p.usedDeprecated {
+			nViol = 0
+			for _, v := range res.Violations {
+				if v.Class != t2interp.VDeprecatedOp {
+					nViol++
+				}
+			}
+		}
+		if nViol > 0 || res.Fatal || !res.Ended {
 			k.Fail("mismatch", "harness:generated-program-not-well-formed", "t2interp (strict) objects to a generated program: %v\n%s", res.Violations, where())
 			return
 		}
@@ -241,11 +252,14 @@ func c05checkWellFormed(k *mon.Case, f *c05font, data []byte, tag string) {
 		if bad == "" && (res.HasWidth != p.hasWidth || (p.hasWidth && res.WidthArg != p.widthArg)) {
 			bad = fmt.Sprintf("width operand %v %v vs intended %v %v", res.HasWidth, res.WidthArg, p.hasWidth, p.widthArg)
 		}
+		if bad == "" && ((res.Seac == nil) != (p.seac == nil) || (p.seac != nil && *res.Seac != *p.seac)) {
+			bad = fmt.Sprintf("seac operands %v vs intended %v", res.Seac, p.seac)
+		}
 		if bad != "" {
 			k.Fail("mismatch", "harness:intent-vs-interp", "generator intent and t2interp disagree: %s\n%s", bad, where())
 			return
 		}
-		eligible[gid] = !p.usedArith && !p.usedFrac && !p.usedFlex
+		eligible[gid] = !p.usedArith && !p.usedFrac && !p.usedFlex && !p.usedDeprecated // x/image composes seac glyphs
 		if p.flex1Tie {
 			k.Class("flex1:tie")
 		}
@@ -323,17 +337,43 @@ func c05checkWellFormed(k *mon.Case, f *c05font, data []byte, tag string) {
 			return fmt.Sprintf("glyph %d (FD %d, %d global / %d local subrs; default %v nominal %v)\n charstring % x\n flat program % x", gid, f.fdsel[gid], len(f.tables.global), len(f.tables.local[f.fdsel[gid]]),
 				f.env(gid).DefaultWidthX, f.env(gid).NominalWidthX, f.codes[gid][:min(300, len(f.codes[gid]))], c05bytes(f.progs[gid].toks)[:min(300, len(c05bytes(f.progs[gid].toks)))])
 		}
+		// the deprecated forms get witness classes of their own
+		p, sfx := f.progs[gid], ""
+		switch {
+		case p.seac != nil:
+			sfx = ":endchar-seac-form"
+		case p.usedDeprecated:
+			sfx = ":dotsection"
+		}
+		before := k.Failed()
 		if d := cffCompareOps(lg.Cmds, res.Ops, 1e-9); d != "" {
-			k.Fail("mismatch", tag+"path-differs", "cff.Read decodes a different path than TN5177 defines: %s\n%s\n lib:%s\n ref:%s", d, where(), cffOpsString(lg.Cmds, 30), cffInterpString(res.Ops, 30))
+			k.Fail("mismatch", tag+"path-differs"+sfx, "cff.Read decodes a different path than TN5177 defines: %s\n%s\n lib:%s\n ref:%s", d, where(), cffOpsString(lg.Cmds, 30), cffInterpString(res.Ops, 30))
 		}
 		if d := cffCompareStems(lg.HStem, res.HStem, 1e-9); d != "" {
-			k.Fail("mismatch", tag+"hstem-differs", "hstem: %s\n%s", d, where())
+			k.Fail("mismatch", tag+"hstem-differs"+sfx, "hstem: %s\n%s", d, where())
 		}
 		if d := cffCompareStems(lg.VStem, res.VStem, 1e-9); d != "" {
-			k.Fail("mismatch", tag+"vstem-differs", "vstem: %s\n%s", d, where())
+			k.Fail("mismatch", tag+"vstem-differs"+sfx, "vstem: %s\n%s", d, where())
 		}
 		if !(math.Abs(lg.Width-res.Width) <= 1e-9) {
-			k.Fail("mismatch", tag+"width-differs", "width: cff.Read %v, reference %v (explicit %v)\n%s", lg.Width, res.Width, res.HasWidth, where())
+			k.Fail("mismatch", tag+"width-differs"+sfx, "width: cff.Read %v, reference %v (explicit %v)\n%s", lg.Width, res.Width, res.HasWidth, where())
+		}
+		if p.usedDeprecated && k.Failed() == before {
+			if p.seac != nil {
+				// own path, stems and width are judged; the composition of base and accent glyph is not
+				// (it is not among the operators the property lists, and cff.Glyph has no component field)
+				if res.HasWidth {
+					k.Class("deprecated:endchar-seac-form:with-width")
+				} else {
+					k.Class("deprecated:endchar-seac-form:without-width")
+				}
+				if len(res.Ops) > 0 {
+					k.Class("deprecated:endchar-seac-form:behind-a-path")
+				}
+			}
+			if p.opHist["dotsection"] > 0 {
+				k.Class("deprecated:dotsection")
+			}
 		}
 	}
 
@@ -412,7 +452,15 @@ func runC05(c *mon.Ctx) {
 			deepGlyph = r.IntN(n)
 		}
 		for gid := 0; gid < n; gid++ {
-			p := c05program(r, c05randOpts(r), "")
+			o := c05randOpts(r)
+			// the deprecated-but-specified forms of TN5177 appendix C
+			if r.IntN(8) == 0 {
+				o.seac = true
+			}
+			if r.IntN(8) == 0 {
+				o.dotsection = true
+			}
+			p := c05program(r, o, "")
 			deep := 0
 			if gid == deepGlyph {
 				deep = 2 + r.IntN(9)
@@ -780,7 +828,7 @@ func runC05(c *mon.Ctx) {
 		}
 	}
 	c.Require(req...)
-	c.Require("concurrent-read", "flex1:tie")
+	c.Require("concurrent-read", "flex1:tie", "deprecated:endchar-seac-form:with-width", "deprecated:endchar-seac-form:without-width", "deprecated:endchar-seac-form:behind-a-path", "deprecated:dotsection")
 }
 
 var _ = cff.OpMoveTo
